@@ -159,8 +159,30 @@ def run(ctx: Ctx) -> None:
         sources.append((c.args[0], c))
     ctx.require_count("RF-TABLE", len(sources), 1, "exemption entries")
     entries: list[tuple[ast.expr, str, ast.AST]] = []  # (expr, kind, site)
+
+    def entry_value(arg: ast.expr, prefix: str) -> object:
+        """An entry expression under a concrete prefix; locals with a single definition (`health_path = f"{prefix}/health"`) are expanded."""
+        env: dict[str, object] = {"prefix": prefix}
+        for _ in range(4):
+            missing = [nm for nm in sorted({x.id for x in ast.walk(arg) if isinstance(x, ast.Name)} | {x.id for v0 in list(pending.values()) for x in ast.walk(v0) if isinstance(x, ast.Name)}) if nm not in env]
+            progressed = False
+            for nm in missing:
+                ds = [n.value for n in walk_scope(fac.node) if isinstance(n, (ast.Assign, ast.AnnAssign)) and n.value is not None and any(isinstance(t, ast.Name) and t.id == nm for t in (n.targets if isinstance(n, ast.Assign) else [n.target]))]
+                if len(ds) != 1:
+                    continue
+                try:
+                    env[nm] = mini_eval(ds[0], env)
+                    progressed = True
+                    pending.pop(nm, None)
+                except AnalysisError:
+                    pending[nm] = ds[0]
+            if not progressed:
+                break
+        return mini_eval(arg, env)
+
+    pending: dict[str, ast.expr] = {}
     for arg, c in sources:
-        v = mini_eval(arg, {"prefix": "/P"}) if True else None
+        v = entry_value(arg, "/P")
         guards = enclosing(fcfg, c, (ast.If,))
         gnames: set[str] = set()
         for g in guards:
@@ -254,7 +276,7 @@ def run(ctx: Ctx) -> None:
             ex_list = []
             for arg, kind, _c in entries:
                 if (kind == "health" and health_on) or (kind == "oauth" and pkce_on) or kind == "other":
-                    ex_list.append(mini_eval(arg, {"prefix": P}))
+                    ex_list.append(entry_value(arg, P))
             cfgs = f"prefix={P!r} health={health_on} pkce={pkce_on}"
             import copy
 
